@@ -161,6 +161,43 @@ def run_one(ck, prog):
                     op, a, b = {"Gt": "Lt", "Ge": "Le", "Lt": "Gt", "Le": "Ge"}[op], b, a
                 c = const_value(b) if const_value(b) is not None else fold(b)
                 ok = isinstance(a, tuple) and a[0] == "param" and ((op == "Gt" and c == FIRST - 1) or (op == "Ge" and c == FIRST))
+                if not ok and c is not None:
+                    # the same window through the negation: the test is on  s*res + k (mod 2^64)  with s = +/-1 - e.g.
+                    # res.wrapping_neg().wrapping_sub(1) < 4095 - so it holds on one interval of res; that interval must be the window
+                    M = 1 << 64
+
+                    def affine(e, depth=0):
+                        e = strip_casts(e)
+                        if isinstance(e, tuple) and e[0] == "param":
+                            return (1, 0)
+                        if not isinstance(e, tuple) or depth > 8:
+                            return None
+                        if e[0] == "call" and (e[1] or "").endswith("::wrapping_neg") and e[2]:
+                            x = affine(e[2][0], depth + 1)
+                            return None if x is None else (-x[0], (-x[1]) % M)
+                        if e[0] == "un" and e[1] == "Neg":
+                            x = affine(e[2], depth + 1)
+                            return None if x is None else (-x[0], (-x[1]) % M)
+                        if e[0] == "un" and e[1] == "Not":
+                            x = affine(e[2], depth + 1)
+                            return None if x is None else (-x[0], (-x[1] - 1) % M)
+                        if e[0] == "call" and (e[1] or "").endswith(("::wrapping_sub", "::wrapping_add")) and len(e[2]) == 2:
+                            x, k = affine(e[2][0], depth + 1), fold(e[2][1])
+                            if x is None or k is None:
+                                return None
+                            return (x[0], (x[1] + (k if e[1].endswith("add") else -k)) % M)
+                        if e[0] == "bin" and e[1] in ("Add", "Sub") and fold(e[3]) is not None:
+                            x = affine(e[2], depth + 1)
+                            return None if x is None else (x[0], (x[1] + (fold(e[3]) if e[1] == "Add" else -fold(e[3]))) % M)
+                        return None
+                    af = affine(a)
+                    if af is not None:
+                        s_, k_ = af
+                        # values v = s*res + k with v in [vlo, vhi]
+                        vlo, vhi = {"Lt": (0, c - 1), "Le": (0, c), "Gt": (c + 1, M - 1), "Ge": (c, M - 1)}[op]
+                        if 0 <= vlo <= vhi < M:
+                            lo, hi = ((vlo - k_) % M, (vhi - k_) % M) if s_ == 1 else ((k_ - vhi) % M, (k_ - vlo) % M)
+                            ok = (lo, hi) == (FIRST, M - 1)
         ck.ob("C09.1", "threshold", ok, fn=f["path"], detail=f"is_syscall_error must be true exactly for res >= usize::MAX - 4094 (`res > usize::MAX - 4095`); found {show(rets[0]) if rets else None}")
     cf = prog.fns.get(CLASSIFIERS[1])
     if ck.anchor("C09.1", "coerce_from_register", cf):
@@ -405,14 +442,22 @@ def check_errno_sites(ck, prog, ctx, sites, _unused, is_coerce=False):
         if src is None:
             continue
         cs = c
-        while isinstance(cs, tuple) and cs[0] == "cast" and cs[3] == "i32" and False:
-            cs = cs[2]
+        # the payload of a variant that was built a moment ago: (Some(x) as Some).0 is x (a classifier helper returning Option<errno>, expanded)
+        while isinstance(cs, tuple) and cs[0] == "field" and isinstance(cs[1], tuple) and cs[1][0] == "downcast" and isinstance(cs[1][1], tuple) and cs[1][1][0] == "agg" and cs[1][1][2] == cs[1][2] and len(cs[1][1][3]) == 1 and str(cs[2]) in ("0",):
+            cs = cs[1][1][3][0]
         ok = False
         if isinstance(cs, tuple) and cs[0] == "bin" and cs[1] == "Sub" and const_value(cs[2]) == 0:
             inner = cs[3]
             ok = isinstance(inner, tuple) and inner[0] == "cast" and inner[3] == "i32" and strip_casts(inner) == src
         if isinstance(cs, tuple) and cs[0] == "un" and cs[1] == "Neg":
             inner = cs[2]
+            ok = isinstance(inner, tuple) and inner[0] == "cast" and inner[3] == "i32" and strip_casts(inner) == src
+        # (res.wrapping_neg()) as i32 / (res as i32).wrapping_neg(): the low 32 bits of -res, the same value
+        if isinstance(cs, tuple) and cs[0] == "cast" and cs[3] == "i32":
+            inner = strip_casts(cs[2]) if False else cs[2]
+            ok = isinstance(inner, tuple) and inner[0] == "call" and (inner[1] or "").endswith("::wrapping_neg") and inner[2] and strip_casts(inner[2][0]) == src
+        if isinstance(cs, tuple) and cs[0] == "call" and (cs[1] or "").endswith("::wrapping_neg") and cs[2]:
+            inner = cs[2][0]
             ok = isinstance(inner, tuple) and inner[0] == "cast" and inner[3] == "i32" and strip_casts(inner) == src
         name = "param" if src[0] == "param" else (src[2][0][2].split("::")[-1] if src[2] and src[2][0][0] == "const" and src[2][0][2] else "?")
         ck.ob("C09.3", f"{ctx.path}|{name}|errno-negated", ok, fn=ctx.path, site=ctx.site(bb),
